@@ -12,6 +12,8 @@ for s in $seeds; do
   prop=${s%%-*}; checks=$prop
   [ "$s" = "C10-b" ] && checks="C10 C18"
   [ "$s" = "C18-c" ] && checks="C18 C17"
+  [ "$s" = "C04-f" ] && checks="C04 C05"   # two deploys committing stale routing tables: needs overlapping commands; C04 quantifies over command orders, C05 has the racing deploys
+  [ "$s" = "C11-f" ] && checks="C11 C12"   # stale cached encoding needs two overlapping commands: C12's overlapping pairs
   [ "$s" = "C06-f" ] && checks="C06 C17"   # a probe left in flight / sent after the failed command returned: C17 owns the probe timing (slow-probe configs, select choice points)
   [ "$s" = "C10-e" ] && checks="C10 C12"   # needs overlapping snapshots: C10 quantifies over sequential histories, C12 has the overlapping pairs
   target=/repo
